@@ -23,7 +23,9 @@ def install_clock(interp, names=("time.monotonic",)):
 
     def monotonic(it, args, kwargs, node):
         g = it.path.ghost
-        t = z3.Real(fresh_name("now"))
+        # named by call site: the k-th reading *at a given source location* is the same symbol on both sides of a product
+        site = f"{it.frames[-1].func.qualname}:{getattr(node, 'lineno', 0)}" if it.frames and it.frames[-1].func else "?"
+        t = z3.Real(fresh_name(f"now@{site}"))
         if "now" in g:
             it.path.assume(t >= g["now"])
         g["now"] = t
@@ -62,7 +64,8 @@ def install_timedelta(interp):
 def make_timedelta(it, x):
     """rounded value s of x: |s - x| <= 0.5us and rounding is monotone w.r.t. every other rounding on this path.
     (Integrality of s in microseconds is deliberately not assumed: weaker assumption, linear real arithmetic only.)"""
-    s = z3.Real(fresh_name("td"))
+    site = f"{it.frames[-1].func.qualname}" if it.frames and it.frames[-1].func else "?"
+    s = z3.Real(fresh_name(f"td@{site}"))
     it.path.assume(z3.And(s - x <= z3.RealVal("1/2000000"), x - s <= z3.RealVal("1/2000000")))
     lst = it.path.ghost.setdefault("td_list", [])
     for (xi, si) in lst[-6:]:
